@@ -87,6 +87,8 @@ def _row_slice(t: T):
             idx = idx.args[0]
         if idx.op == "slice" and tm.is_const(idx.args[0], None) and \
                 tm.is_const(idx.args[2], None):
+            if tm.is_const(idx.args[1], None):
+                return t.args[0], None       # base[:None] is all of base
             return t.args[0], idx.args[1]
     return t, None
 
@@ -95,12 +97,13 @@ def check(ctx):
     prog = ctx.prog
     fa = prog.func(ALIGN)
     ctx.analysed_fn(ALIGN, ORIGIN)
-    ctx.require(fa.params == ["self", "traj_ref", "correct_scale",
-                              "correct_only_scale", "n"],
-                "PosePath3D.align signature changed")
+    from ..lib import extra_defaults
+    extra = extra_defaults(fa, ["self", "traj_ref", "correct_scale",
+                                "correct_only_scale", "n"])
+    ctx.require(extra is not None, "PosePath3D.align signature changed")
     selfp, refp, npar = tm.param("self"), tm.param("traj_ref"), tm.param("n")
     n_atom = None
-    base = Interp(prog).run(fa)
+    base = Interp(prog).run(fa, dict(extra))
     cands = []
     for e in base.events:
         cands.extend(tm.atoms(e.live))
@@ -127,8 +130,8 @@ def check(ctx):
 
     for cs, cos in itertools.product([False, True], repeat=2):
         for n_all in (True, False):
-            cfg = {"correct_scale": const(cs), "correct_only_scale":
-                   const(cos)}
+            cfg = dict(extra, correct_scale=const(cs),
+                       correct_only_scale=const(cos))
             av = n_all if n_all_true else not n_all
             it = Interp(prog, assume=lambda t, v=av: v if t is n_atom
                         else None)
